@@ -2396,10 +2396,29 @@ def check_symmetry_number(prog: Program, res: Result) -> None:
     rets = [r for r in ast.walk(fi.node) if isinstance(r, ast.Return)]
     inst = "topological_symmetry_number: returns the number of mappings"
     ok = None
+    # the iterator of mappings under its role name
+    mnames = [n_.targets[0].id for n_ in ast.walk(fi.node)
+              if isinstance(n_, ast.Assign) and len(n_.targets) == 1
+              and isinstance(n_.targets[0], ast.Name)
+              and isinstance(n_.value, ast.Call)
+              and call_name(n_.value) == "vf2pp_all_isomorphisms"]
+    from .core import clone as _clone
+
+    class _M(ast.NodeTransformer):
+        def visit_Call(self, node):
+            if call_name(node) == "vf2pp_all_isomorphisms":
+                return ast.Name("mappings", ast.Load())
+            self.generic_visit(node)
+            return node
+
     for r in rets:
-        t = norm(r.value, 200)
+        t = norm(_M().visit(_clone(r.value)), 200) if r.value is not None \
+            else "None"
+        if len(mnames) == 1:
+            t = re.sub(rf"\b{re.escape(mnames[0])}\b", "mappings", t)
         src = " ".join(norm(d, 200) for d in du.dep_nodes(r.value))
-        if "vf2pp_all_isomorphisms" not in src:
+        if "vf2pp_all_isomorphisms" not in src and \
+                "vf2pp_all_isomorphisms" not in norm(r.value, 400):
             ok = False
             continue
         if t in ("deque(enumerate(mappings, 1), maxlen=1)[0][0]",
